@@ -509,6 +509,12 @@ pub(crate) fn load_defs(ctx: &mut Context, defs: Defs) -> Vec<String> {
                         unique.insert(&*prop.name);
                         unique.insert(&*prop.input_name);
                         unique.insert(&*prop.output_name);
+                        if input.value == Numeric::zero() || output.value == Numeric::zero() {
+                            return Err(format!(
+                                "Property {} of {} has a value of zero",
+                                prop.name, name
+                            ));
+                        }
                         let unit = (&input / &output).expect("Non-zero property").unit;
                         let existing = prev.entry(unit).or_insert_with(BTreeSet::new);
                         for conflict in existing.intersection(&unique) {
